@@ -630,41 +630,115 @@ theorem rev_append_drops_once (env : Env) (v other : Vec) (hv : v.RWF) (ho : oth
 /-! ## `BumpVec::splice` (`Coll/Splice.lean`: `bump_vec/splice.rs` + `bump_vec/drain.rs`) -/
 
 /-- `splice(start..end, replace_with)`, any pulls, then the `Splice` is dropped — for every range, source,
-    `size_hint` behaviour of the source, and set of panicking destructors: no fault, the vector is well-formed,
-    and every old value and every value of `replace_with` is accounted for exactly once (also when a destructor
-    of the drained range panics inside `Splice::drop`, and when the range check panics: `replace_with` is dropped) -/
+    `size_hint` behaviour of the source (honest, under-reporting `hint`, or LYING `lie = some l`: over-reporting
+    up to a reservation that ends in the "capacity overflow" panic, `maxCap` = largest element count with a
+    valid layout) and set of panicking destructors: no fault, the vector is well-formed, and every old value and
+    every value of `replace_with` is accounted for exactly once — also when a destructor of the drained range
+    panics inside `Splice::drop`, when the range check panics, and when `Splice::drop` unwinds out of
+    `reserve` / `move_tail` / `from_iter_in` with "capacity overflow" (`Drain::drop` then restores the tail, and
+    `replace_with` is dropped with what it still owns) -/
 theorem splice_drops_once (env : Env) (hk : env.kind = .bump) (v : Vec) (start end_ : Nat) (src : List Id) (hint : Nat)
+    (lie : Option Nat) (maxCap : Nat)
     (script : List Pull) (hv : v.WF) (hfresh : (v.total ++ src).Nodup) :
-    DropsOnce (splice env v start end_ src hint script) v src := by
+    DropsOnce (splice env v start end_ src hint lie maxCap script) v src := by
   have ⟨hs, hl⟩ := hv.slots_eq
-  obtain ⟨v', e, h, hc⟩ := splice_holds env hk v v.abs start end_ src hint script hs hl
+  obtain ⟨v', e, h, hc⟩ := splice_holds env hk v v.abs start end_ src hint lie maxCap script hs hl
   have ⟨g, gc⟩ := growTo_grows hs hl v'.cap
   have hcap' : (growTo v v'.cap).cap = v'.cap := by rw [gc]; omega
-  have hfl : (spliceSpec env.bombs v.abs start end_ src script).final.length ≤ v'.cap := by
+  generalize capsOf env v hint lie maxCap = c at *
+  have hfl : (spliceSpec env.bombs c v.abs start end_ src script).final.length ≤ v'.cap := by
     have h1 := congrArg List.length h.slots
     have h2 := h.len
     simp only [List.length_append, length_I, length_H] at h1
     have : v'.slots.length = v'.cap := rfl
     omega
-  have hv' : v' = (growTo v v'.cap).after (spliceSpec env.bombs v.abs start end_ src script) := by
+  have hv' : v' = (growTo v v'.cap).after (spliceSpec env.bombs c v.abs start end_ src script) := by
     apply Vec.eq_of
     · rw [h.slots]; simp only [Vec.after]; rw [hcap', h.len]
     · simp only [Vec.after]; exact h.len.symm
     · simp only [Vec.after]; rw [h.dropLog]; rfl
     · simp only [Vec.after]; rw [h.escaped]; rfl
   rw [hv'] at e
-  exact dropsOnce_grown hv g e (spliceSpec_perm _ _ _ _ _ _) (by rw [hcap']; exact hfl) hfresh
+  exact dropsOnce_grown hv g e (spliceSpec_perm _ _ _ _ _ _ _) (by rw [hcap']; exact hfl) hfresh
+
+/-- what the vector holds after a splice that unwound with "capacity overflow" (no panicking destructor):
+    the head, the items written before the panic, the untouched tail — nothing lost, nothing twice -/
+theorem splice_overflow_contents (env : Env) (hk : env.kind = .bump) (v : Vec) (start end_ : Nat) (src : List Id) (hint : Nat)
+    (lie : Option Nat) (maxCap : Nat) (script : List Pull) (hv : v.WF) (hr : start ≤ end_ ∧ end_ ≤ v.len)
+    (hb : (pullsSpec ((v.abs.take end_).drop start) script).2.any env.bombs.contains = false) :
+    ∃ r, splice env v start end_ src hint lie maxCap script = .ok r ∧
+      r.vec.abs = v.abs.take start ++ (spliceWritten (capsOf env v hint lie maxCap) start end_ v.len src).1 ++ v.abs.drop end_ ∧
+      r.vec.dropLog = v.dropLog ++ ((pullsSpec ((v.abs.take end_).drop start) script).2 ++
+        src.drop (spliceWritten (capsOf env v hint lie maxCap) start end_ v.len src).1.length) ∧
+      (r.exit = .panic false ↔ (spliceWritten (capsOf env v hint lie maxCap) start end_ v.len src).2 = true) := by
+  have ⟨hs, hl⟩ := hv.slots_eq
+  obtain ⟨v', e, h, hc⟩ := splice_holds env hk v v.abs start end_ src hint lie maxCap script hs hl
+  have hr' : ¬ (start > end_ ∨ end_ > v.abs.length) := by omega
+  have habs : v'.abs = _ := Vec.WF.abs_eq h.slots h.len
+  generalize capsOf env v hint lie maxCap = c at *
+  have hspec : spliceSpec env.bombs c v.abs start end_ src script =
+      { final := v.abs.take start ++ (spliceWritten c start end_ v.abs.length src).1 ++ v.abs.drop end_,
+        dropped := (pullsSpec ((v.abs.take end_).drop start) script).2 ++ src.drop (spliceWritten c start end_ v.abs.length src).1.length,
+        escaped := yielded (pullsSpec ((v.abs.take end_).drop start) script).1,
+        exit := if (spliceWritten c start end_ v.abs.length src).2 then .panic false else .ret (pullsSpec ((v.abs.take end_).drop start) script).1,
+        rest := [] } := by
+    unfold spliceSpec
+    rw [if_neg hr']
+    simp only [hb, Bool.false_eq_true, ↓reduceIte]
+  rw [hspec] at e h habs
+  rw [hl] at e h habs
+  refine ⟨_, e, habs, h.dropLog, ?_⟩
+  simp only
+  cases (spliceWritten c start end_ v.len src).2 <;> simp
 
 /-- non-vacuity: `[1,2,3,4,5].splice(1..3, [10,11,12,13])`, one `next()`; the source under-reports its length
     (`size_hint().0 ≤ 1`), so `move_tail` runs twice and the vector reallocates -/
-example : splice { kind := .bump } (Vec.mk' [1, 2, 3, 4, 5] 0) 1 3 [10, 11, 12, 13] 1 [.front] =
+example : splice { kind := .bump } (Vec.mk' [1, 2, 3, 4, 5] 0) 1 3 [10, 11, 12, 13] 1 none 1000 [.front] =
     .ok ⟨{ slots := I [1, 10, 11, 12, 13, 4, 5] ++ H 3, len := 7, dropLog := [3], escaped := [2] }, .ret [some 2], []⟩ := by
   decide
 
 /-- the destructor of 3 panics inside `Splice::drop`: the range is removed, the tail moves back, `replace_with`
     is dropped unused -/
-example : splice { kind := .bump, bombs := [3] } (Vec.mk' [1, 2, 3, 4, 5, 6] 0) 1 5 [10, 11] 0 [] =
+example : splice { kind := .bump, bombs := [3] } (Vec.mk' [1, 2, 3, 4, 5, 6] 0) 1 5 [10, 11] 0 none 1000 [] =
     .ok ⟨{ slots := I [1, 6] ++ H 4, len := 2, dropLog := [2, 3, 4, 5, 10, 11] }, .panic true, []⟩ := by decide
+
+/-- a LYING source (`size_hint().0 = 2^63-1`): the full vector `[1,2,3,4]`, `splice(1..2, [10,11,12])`: 10 fills the
+    range, `move_tail(2^63-1)` → `buf_reserve` panics with "capacity overflow" before anything moved; the unwind
+    leaves `[1,10,3,4]`, the range's 2 and the unwritten 11, 12 are dropped once -/
+example : splice { kind := .bump } (Vec.mk' [1, 2, 3, 4] 0) 1 2 [10, 11, 12] 100 (some 9223372036854775807) 576460752303423487 [] =
+    .ok ⟨{ slots := I [1, 10, 3, 4], len := 4, dropLog := [2, 11, 12] }, .panic false, []⟩ := by decide
+
+/-- no tail: `extend` → `reserve(2^63-1)` panics: nothing is written -/
+example : splice { kind := .bump } (Vec.mk' [1, 2, 3, 4] 0) 1 4 [10, 11] 100 (some 9223372036854775807) 576460752303423487 [] =
+    .ok ⟨{ slots := I [1] ++ H 3, len := 1, dropLog := [2, 3, 4, 10, 11] }, .panic false, []⟩ := by decide
+
+/-- a harmless over-report (5 claimed, 2 left): `move_tail(5)` grows the buffer, `fill` comes up short, the guard
+    of `Drain::drop` moves the tail back -/
+example : splice { kind := .bump } (Vec.mk' [1, 2, 3, 4] 0) 1 2 [10, 11, 12] 100 (some 5) 576460752303423487 [] =
+    .ok ⟨{ slots := I [1, 10, 11, 12, 3, 4] ++ H 3, len := 6, dropLog := [2] }, .ret [], []⟩ := by decide
+
+/-- `Extend::extend(iter)` on a `BumpVec`, for every `size_hint` behaviour of the source (lying included): every
+    old value and every item of the source is accounted for exactly once — pushed, or (when the reservation for
+    the claimed length overflows) dropped with the source -/
+theorem extend_drops_once (env : Env) (hk : env.kind = .bump) (v : Vec) (src : List Id) (hint : Nat)
+    (lie : Option Nat) (maxCap : Nat) (hv : v.WF) (hfresh : (v.total ++ src).Nodup) :
+    DropsOnce (extendIter env v src hint lie maxCap) v src := by
+  have ⟨hs, hl⟩ := hv.slots_eq
+  have h := extendIter_bump env hk v v.abs src hint lie maxCap hs hl
+  by_cases hov : capOverflow env maxCap v v.len (spliceLower hint lie src.length) = true
+  · simp only [hov, ↓reduceIte] at h
+    refine ⟨_, h, ⟨hv.1, ?_⟩, ?_⟩
+    · have hp : (dropArgs v src).total.Perm (v.total ++ src) := by
+        simp only [Vec.total, dropArgs]; rw [List.perm_iff_count]; intro a; simp only [List.count_append]; omega
+      exact hp.nodup_iff.mpr hfresh
+    · simp only [Vec.total, dropArgs]; rw [List.perm_iff_count]; intro a; simp only [List.count_append]; omega
+  · simp only [hov, Bool.false_eq_true, ↓reduceIte] at h
+    obtain ⟨v', e, hh, hc⟩ := h
+    have hp : v'.total.Perm (v.total ++ src) := by
+      rw [hv.total_eq]
+      simp only [Vec.total, hh.slots, hh.dropLog, hh.escaped, idsOf_append, idsOf_I, idsOf_H, List.append_nil]
+      rw [List.perm_iff_count]; intro a; simp only [List.count_append]; omega
+    exact ⟨_, e, ⟨⟨_, hh.slots, hh.len⟩, hp.nodup_iff.mpr hfresh⟩, hp⟩
 
 /-! ## `BumpVec::map` (`Coll/MapVec.lean`: `generic_map`, both code paths) -/
 
